@@ -49,6 +49,9 @@ def programs():
     out.append(dict(label="STR-cap0", src='out str[1] e; out int{unsigned, size 1} z1 = 165; hook h; parser { try { e += /a+/; } catch (outofspace) { h(); } "b"; }\n', argv=[], alphabet=list(b"ab"), sentinels={"z1": 165}, uses_oob_index=False))
     out.append(dict(label="STR-exact", src='out unterminated str[3] u = "abc"; out int{unsigned, size 1} z1 = 165; out str[4] s = "abc"; out int{unsigned, size 1} z2 = 165; hook h; parser { h(); loop { case { "a" -> { u = "xyz"; s = "xyz"; } "b" -> { delete u; u += /[xy]+/; ";"; } "c" -> { try { s += /[xy]/; } catch (outofspace) { delete s; h(); } } } } }\n',
                     argv=[], alphabet=list(b"abcxy;"), sentinels={"z1": 165, "z2": 165}, uses_oob_index=False))
+    # in-range reads of a buffer that does not exist (yet / any more); only under storage modes where every byte read is defined
+    out.append(dict(label="STR-nullread", src='out str[3] s; out int{unsigned, size 1} z1 = 165; out int n = 0; hook h; parser { loop { case { "r" -> { n = [s[0] + s[2] + s[5]]; h(); } "w" -> { s = "ab"; } "d" -> { delete s; } "i" -> { if s[1] == \'b\' { h(); } } } } }\n',
+                    argv=[], alphabet=list(b"rwdi"), sentinels={"z1": 165}, uses_oob_index=True, storage_only=[[], ["-fallocate-str-space-dynamic-on-demand"], ["-fallocate-str-space-dynamic-on-demand", "-fdelete-string-free-memory"]]))
     app = " ".join("big += [65];" for _ in range(64))
     out.append(dict(label="STR-big", src='out unterminated str[256] big; out int{unsigned, size 1} z1 = 165; out str[256] t; out int{unsigned, size 1} z2 = 165; out int{unsigned, size 2} k = 0; hook h;\n'
                     'parser { loop { try { case { "A" -> { %s } "B" -> { t += /[xy]+/; ";"; } "j" -> { k = [big.len + t.len]; h(); } } } catch (outofspace) { k = [big.len + t.len]; delete big; delete t; h(); } } }\n' % app,
